@@ -70,22 +70,12 @@ impl Cfg {
     }
 }
 
-pub const N_VARIANTS: usize = 36;
 
 /// Sign a payload with one of the named keys; `alg_override` writes a different alg
 /// into the header than the key's own (only meaningful for HMAC tricks).
 pub fn sign(payload: &J, key: &str) -> String {
     let alg = Algorithm::from_str(keys::alg_of(key)).unwrap();
     jsonwebtoken::encode(&Header::new(alg), payload, &keys::issuer_enc(key)).expect("sign")
-}
-
-pub fn sign_with_header(header: &Header, payload: &J, key: &jsonwebtoken::EncodingKey) -> Option<String> {
-    jsonwebtoken::encode(header, payload, key).ok()
-}
-
-/// Hand-assembled SD-JWT: signed payload + disclosures (+ KB).
-pub fn craft(payload: &J, disclosures: &[String], key: &str) -> Parts {
-    Parts { jwt: sign(payload, key), disclosures: disclosures.to_vec(), kb: None }
 }
 
 pub fn sd_hash(jwt: &str, disclosures: &[String]) -> String {
